@@ -30,7 +30,7 @@ theorem assignAux_fetch_pae {env : MEnv} {sroot : Bool} {sref : Val} {kind : Str
       match callFactory kind st' with
       | (st1, .error e') => (st1, .error e')
       | (st1, .ok fresh) =>
-        match assignAux env sroot sref (.factory kind) fuel st1 fresh (orig.drop (k + 1)) (.lit val) with
+        match assignAux env false sref (.factory kind) fuel st1 fresh (orig.drop (k + 1)) (.val val) with
         | (st2, .error e') => (st2, .error e')
         | (st2, .ok val') =>
           match orig[k]? with
@@ -63,11 +63,9 @@ theorem finalOk_of_wfSteps {s : Step} (h : C01.wfSteps [s] = true) : finalOk s.1
 /-- **the `missing` recursion is `buildTail`**: one factory call per absent segment, the tail is
     built on fresh cells only (every pre-existing cell is preserved, also on failure) -/
 theorem tail_spec {env : MEnv} (hwf : WF env = true) (hc : classesOK env = true)
-    (hns : noScope env = true) (sref : Val) (kind : String) (v : Val) (h0 : Heap)
-    (hv : valOK h0 v = true) :
+    (hfs : freshNotScope env = true) (sref : Val) (kind : String) (v : Val) :
     ∀ (rem : List Step), wfStar rem = true → (∀ s, rem.getLast? = some s → finalOk s.1 = true) →
-    rem ≠ [] → ∀ (fuel : Nat), rem.length ≤ fuel → ∀ (st : St), Pres h0 st.heap →
-    h0.length ≤ st.heap.length →
+    rem ≠ [] → ∀ (fuel : Nat), rem.length ≤ fuel → ∀ (st : St),
     match buildTail env kind v rem st.heap with
     | some (h', c, hid, n) =>
       ∃ st2, tailRun env sref kind fuel st rem v = (st2, .ok c) ∧ st2.heap = h' ∧
@@ -81,7 +79,7 @@ theorem tail_spec {env : MEnv} (hwf : WF env = true) (hc : classesOK env = true)
   induction rem with
   | nil => intro _ _ hne; exact absurd rfl hne
   | cons s rest ih =>
-    intro hw hlast _ fuel hfuel st hp hlen
+    intro hw hlast _ fuel hfuel st
     obtain ⟨hs, hwr⟩ := wfStar_cons hw
     cases fuel with
     | zero => simp at hfuel
@@ -103,10 +101,7 @@ theorem tail_spec {env : MEnv} (hwf : WF env = true) (hc : classesOK env = true)
       have h1hid : st1.hidden = st.hidden := by subst hst1; rfl
       have hfresh : st1.heap[st.heap.length]? = some o := by simp [h1h]
       have hp1 : Pres st.heap st1.heap := by rw [h1h]; exact Pres.append _ _
-      have hp01 : Pres h0 st1.heap := Pres.trans hp hp1 hlen
-      have hreb : rebuilds st1.heap v = false := valOK_rebuilds hv hp01
-      have hev : evalVal env st1 (.ref st.heap.length) (.lit v) = (st1, .ok v) := by
-        simp [evalVal, reArgVal_ok hreb]
+      have hev : evalVal env st1 (.ref st.heap.length) (.val v) = (st1, .ok v) := rfl
       cases rest with
       | nil =>
         -- the final step on the fresh object
@@ -144,7 +139,7 @@ theorem tail_spec {env : MEnv} (hwf : WF env = true) (hc : classesOK env = true)
               (if false then sref else (.ref st.heap.length)) = .ok (.node []) := by
             rw [hdl]
             simp only [Bool.false_eq_true, if_false]
-            rw [fetch_star_eq hx _ _ _ _ _ (noScope_isScope hns _ _), hch]
+            rw [fetch_star_eq hx _ _ _ _ _ (fresh_isScope hfs hfo hfresh), hch]
             rfl
           rw [assignAux_fetch_ok hl hfin hev hfe]
           simp only [hdl, stars_cons_x, applyForEach, Nat.add_eq_zero_iff, Nat.one_ne_zero, and_false,
@@ -165,8 +160,7 @@ theorem tail_spec {env : MEnv} (hwf : WF env = true) (hc : classesOK env = true)
           have hnx : (s.1 == "x") = false := by simpa using hop.2.1
           have hlast' : ∀ t, (s' :: rest').getLast? = some t → finalOk t.1 = true := by
             intro t ht; exact hlast t (by rw [getLast?_cons_cons]; exact ht)
-          have ihs := ih hwr hlast' (by simp) f (by simpa using hfuel) st1 hp01
-            (by rw [h1h]; simp; omega)
+          have ihs := ih hwr hlast' (by simp) f (by simpa using hfuel) st1
           simp only [Nat.zero_add, List.drop_one, List.tail_cons, List.getElem?_cons_zero,
             List.take_zero, buildTail, hfo, hnx, hopb, if_true, Bool.false_eq_true, if_false]
           simp only [tailRun, callFactory_eq, hfo] at ihs
@@ -460,27 +454,27 @@ theorem assignAux_fetch_pae_none {env : MEnv} {sroot : Bool} {sref : Val} {fuel 
   simp only [assignAux, hl, hf, hv, hfe]
   rfl
 
-theorem assignAux_fetch_pae_tail {env : MEnv} {sref : Val} {kind : String} {fuel : Nat}
+theorem assignAux_fetch_pae_tail {env : MEnv} {sroot : Bool} {sref : Val} {kind : String} {fuel : Nat}
     {st st' : St} {target : Val} {orig : List Step} {vs : ValSpec} {op : String} {arg val : Val}
     {k : Nat} {e : PyExc}
     (hl : orig.getLast? = some (op, arg)) (hf : finalOk op = true)
     (hv : evalVal env st target vs = (st', .ok val))
-    (hfe : fetch env st'.heap orig.dropLast 0 target = .error (.pae k e)) :
-    assignAux env false sref (.factory kind) (fuel + 1) st target orig vs =
+    (hfe : fetch env st'.heap orig.dropLast 0 (if sroot then sref else target) = .error (.pae k e)) :
+    assignAux env sroot sref (.factory kind) (fuel + 1) st target orig vs =
       match tailRun env sref kind fuel st' (orig.drop (k + 1)) val with
       | (st2, .error e') => (st2, .error e')
       | (st2, .ok val') =>
         match orig[k]? with
         | none => (st2, .error .badSpec)
         | some (op', arg') =>
-          match fetch env st2.heap (orig.take k) 0 target with
+          match fetch env st2.heap (orig.take k) 0 (if sroot then sref else target) with
           | .error e' => (st2, .error e')
           | .ok nest' =>
             match applyForEach (stars (orig.take k)) nest' (assignOp env op' arg' val') st2 with
             | (st3, .ok _) => (st3, .ok target)
             | (st3, .error e') => (st3, .error e') := by
-  rw [assignAux_fetch_pae hl hf hv (by simpa using hfe)]
-  simp only [tailRun, Bool.false_eq_true, if_false]
+  rw [assignAux_fetch_pae hl hf hv hfe]
+  simp only [tailRun]
   cases hcf : callFactory kind st' with
   | mk st1 r => cases r <;> rfl
 
